@@ -61,7 +61,13 @@ func (g *gen) bytes() []byte {
 }
 
 func (g *gen) time() time.Time {
-	switch g.r.Intn(6) {
+	switch g.r.Intn(9) {
+	case 6: // outside the int64-nanosecond range: "does not expire", the first tick after 1601, before 1677
+		return time.Date(9999, 12, 31, 23, 59, 59, g.r.Intn(1000000000), time.UTC)
+	case 7:
+		return time.Date(1601, 1, 1, 0, 0, 0, 100+g.r.Intn(1000), time.UTC)
+	case 8:
+		return time.Date(g.r.Range(1602, 1676), time.Month(g.r.Range(1, 12)), g.r.Range(1, 28), g.r.Intn(24), g.r.Intn(60), g.r.Intn(60), g.r.Intn(1000000000), time.UTC)
 	case 0:
 		return time.Time{}
 	case 1:
